@@ -456,12 +456,12 @@ def bipartiteCmds [DecidableEq A] [Neg A] (zero : A) (identity selfDrop : Bool) 
   else []
 
 /-- `GaussianTransform._decompose`: `sq` = `(|e − 1| ≥ tol, r = |log e|, φ = arg(log e))` per mode;
-the first interferometer (`U2`) is built with the default mesh, the last (`U1`) with the requested one -/
+both interferometers are built with the requested mesh (after the `fix:`; before, `U2` got the default) -/
 def gaussianTransformCmds [Neg A] (d : IDefaults A) (active vacuum : Bool) (kwMesh : Option String)
     (sq : List (Bool × A × A)) (reg : List Nat) : List (XCmd A) :=
   let mesh := kwMesh.getD "rectangular"
   if active then
-    (if vacuum then [] else [(⟨.interferometer "U2" d.mesh d.dropId d.tol, reg⟩ : XCmd A)]) ++
+    (if vacuum then [] else [(⟨.interferometer "U2" mesh d.dropId d.tol, reg⟩ : XCmd A)]) ++
     (sq.zipIdx.flatMap fun (e, n) => if e.1 then [(⟨.sgate (-e.2.1) e.2.2, [rg reg n]⟩ : XCmd A)] else []) ++
     [⟨.interferometer "U1" mesh d.dropId d.tol, reg⟩]
   else if vacuum then [] else [⟨.interferometer "U1" mesh d.dropId d.tol, reg⟩]
